@@ -128,6 +128,9 @@ def embeds(v, r, path, problems, regions, elem=None):
         matched = set()
         for k, x in v.items():
             cands = [k] + ([pynames[k]] if k in pynames and pynames[k] != k else [])
+            if isinstance(r, Object):
+                # a class declared in the DSL may give a JSON name any attribute name it likes
+                cands += [a for a, p in type(r).properties.items() if (p.source or a) == k and a not in cands]
             ok = False
             first_problem = None
             for c in cands:
